@@ -13,7 +13,13 @@ for l in open(sys.argv[1]):
     meta = json.load(open(f'{V}/seeded/{name}/meta.json'))
     summ = (meta.get('summary') or '').replace('\n', ' ').replace('|', '/')
     summ = summ[:230] + ('…' if len(summ) > 230 else '')
-    rows.append((name, prop, res, eng.group(1) if eng else '', sig.group(1) if sig else '', summ))
+    row = (name, prop, res, eng.group(1) if eng else '', sig.group(1) if sig else '', summ)
+    prev = [i for i, r in enumerate(rows) if r[0] == name]
+    if prev:  # a second line for the same change comes from a thorough-tier run of run.sh
+        if rows[prev[0]][2] == 'MISSED' and res == 'DETECTED':
+            rows[prev[0]] = (name, prop, 'MISSED by quick, DETECTED by thorough', row[3], row[4], summ)
+        continue
+    rows.append(row)
 out = ['# Independent seeded changes vs. the quick checks', '',
        'Produced by `seeded/run.sh` + `tools/seeded_results.py` (each patch applied to a scratch copy of /repo, never to /repo; quick tier, VERIF_SEED=1).',
        'Each change was written by a fresh sub-agent that saw only the property text and its own worktree; `meta.json` in each',
@@ -22,4 +28,4 @@ out = ['# Independent seeded changes vs. the quick checks', '',
 for r in rows:
     out.append('| %s | %s | %s | %s | `%s` | %s |' % r)
 open(f'{V}/seeded/RESULTS.md', 'w').write('\n'.join(out) + '\n')
-print(len(rows), 'rows')
+print(len(rows), 'rows;', sum(1 for r in rows if r[2] == 'DETECTED'), 'detected by quick')
